@@ -227,14 +227,25 @@ def isSlice : GoType → Bool
 
 /-! ### `varNameForType` -/
 
+/-- `unicode.ToLower` / `unicode.ToUpper` on the letters the model knows: ASCII and the few non-ASCII
+capitals of the harness catalogue (other first letters are outside the model: the driver answers
+`unmodelled`) -/
+def lowerChar (c : Char) : Char :=
+  if 'A' ≤ c && c ≤ 'Z' then Char.ofNat (c.toNat + 32)
+  else if c == 'Ü' then 'ü' else if c == 'É' then 'é' else if c == 'Ж' then 'ж' else c
+def upperChar (c : Char) : Char :=
+  if 'a' ≤ c && c ≤ 'z' then Char.ofNat (c.toNat - 32)
+  else if c == 'ü' then 'Ü' else if c == 'é' then 'É' else if c == 'ж' then 'Ж' else c
+
+/-- `deCapitalise` / `capitalise` (`template/var.go`): the case of the first character -/
 def lowerFirstByte (s : String) : String :=
   match s.toList with
   | [] => s
-  | c :: r => String.ofList ((if 'A' ≤ c && c ≤ 'Z' then Char.ofNat (c.toNat + 32) else c) :: r)
+  | c :: r => String.ofList (lowerChar c :: r)
 def upperFirstByte (s : String) : String :=
   match s.toList with
   | [] => s
-  | c :: r => String.ofList ((if 'a' ≤ c && c ≤ 'z' then Char.ofNat (c.toNat - 32) else c) :: r)
+  | c :: r => String.ofList (upperChar c :: r)
 
 /-- `basicTypeVarName`: compares `Info()` with single flags, so only booleans, *signed* integers
 (incl. `rune`), floats and strings get a letter -/
